@@ -48,7 +48,8 @@ fn plant(p: &mut Problem, rng: &mut Rng, bound: f64) -> usize {
     }
     let mode = rng.usize(0, 4);
     let mut cnt = 0;
-    let vals = [bound, bound * (1.0 + 1e-12), bound * 2.0, 1e30, f64::MAX, bound * (1.0 - 1e-9), bound * 0.5];
+    // (the mirror images -bound, -1e30 are ordinary, if hopeless, right-hand sides: never dropped)
+    let vals = [bound, bound * (1.0 + 1e-12), bound * 2.0, 1e30, f64::MAX, bound * (1.0 - 1e-9), bound * 0.5, -bound, -1e30, -bound * 2.0];
     let ranges = cone_ranges(&p.cones);
     for (c, r) in p.cones.clone().iter().zip(ranges) {
         let is_nn = matches!(c, ConeT::NonnegativeConeT(_));
